@@ -149,6 +149,13 @@ pub struct Sched {
     pub chaos_level_a: AtomicUsize,
     pub spin_events: Vec<AtomicU64>,
     pub spin_idx: Vec<AtomicUsize>,
+    /// delay injection for every instance (no participant bookkeeping): level 0 = off
+    pub chaos_all_level: AtomicUsize,
+    pub chaos_all_seed: AtomicU64,
+}
+
+thread_local! {
+    static EVENT_NO: std::cell::Cell<u64> = const { std::cell::Cell::new(0) };
 }
 
 pub const CONSUMER: usize = 0;
@@ -186,6 +193,8 @@ pub fn sched() -> Arc<Sched> {
                 chaos_level_a: AtomicUsize::new(0),
                 spin_events: (0..MAX_PARTS).map(|_| AtomicU64::new(0)).collect(),
                 spin_idx: (0..MAX_PARTS).map(|_| AtomicUsize::new(usize::MAX)).collect(),
+                chaos_all_level: AtomicUsize::new(0),
+                chaos_all_seed: AtomicU64::new(0),
             })
         })
         .clone()
@@ -294,7 +303,44 @@ impl Sched {
         }
     }
 
+    /// seeded delays at every schedule point of every Pipe / Buffered instance (used where the
+    /// loader is built by the repo itself and the instances are not known to the harness)
+    pub fn set_chaos_all(&self, seed: u64, level: u8) {
+        self.chaos_all_seed.store(seed, Ordering::SeqCst);
+        self.chaos_all_level.store(level as usize, Ordering::SeqCst);
+    }
+
     fn on_event(&self, ev: Event) {
+        let all = self.chaos_all_level.load(Ordering::Relaxed) as u64;
+        if all > 0 {
+            let n = EVENT_NO.with(|c| {
+                let v = c.get();
+                c.set(v + 1);
+                v
+            });
+            if ev.site == Site::PipeSpin {
+                if n % 32 == 0 {
+                    std::thread::yield_now();
+                }
+                return;
+            }
+            let seed = self.chaos_all_seed.load(Ordering::Relaxed);
+            let h = crate::core::hash64(&(seed, ev.instance, ev.thread, ev.idx, ev.site as u8, n));
+            let r = h % 1000;
+            let narrow = matches!(
+                ev.site,
+                Site::PipeAfterSendOk | Site::PipeAfterTake | Site::PipeBeforeSend
+            );
+            let boost = if narrow { 3 } else { 1 };
+            if r < 40 * all * boost {
+                std::thread::yield_now();
+            } else if r < 70 * all * boost {
+                busy_wait(Duration::from_micros(1 + (h >> 10) % 60));
+            } else if r < 80 * all * boost {
+                std::thread::sleep(Duration::from_micros(50 + (h >> 10) % 800));
+            }
+            return;
+        }
         if ev.site == Site::PipeSpin && !self.controlled_a.load(Ordering::Relaxed) {
             // free running: spin events only feed lock-free counters (the state mutex must not
             // become the bottleneck that the spinners fight over)
